@@ -33,6 +33,20 @@ Theorem TInv_initial : forall now t b x : num, ok now -> ok t -> ok b -> ok x ->
     (~ toQ x == 0 -> val (py_secs2beats s x) (toQ b)).
 Proof. exact init_wf. Qed.
 
+(* Bug-class review (falsy zero).  The constructor's documented arguments: "seconds: the reference time in
+   seconds, to which the beats argument corresponds; defaults to the current thread's logical time".  So with
+   `seconds` GIVEN -- any number, an explicit 0 / 0.0 included -- the one affine map goes through (seconds, beats),
+   and with `seconds` omitted through (now, beats).  (py_init / py_init_now are the two regenerated readings of
+   __init__; the original `seconds or now` fails the first statement at seconds = 0 and now <> 0.) *)
+Theorem constructor_reference_point : forall now t b x : num, ok now -> ok t -> ok b -> ok x -> 0 <= toQ t ->
+  exists s, py_init clock_blank now t b x = Some s /\ WF s /\ 0 < toQ (tempo s) /\
+    (0 < toQ t -> toQ (tempo s) == toQ t) /\ val (py_secs2beats s x) (toQ b).
+Proof. exact init_given. Qed.
+Theorem constructor_default_seconds : forall now t b : num, ok now -> ok t -> ok b -> 0 <= toQ t ->
+  exists s, py_init_now clock_blank now t b = Some s /\ WF s /\ 0 < toQ (tempo s) /\
+    (0 < toQ t -> toQ (tempo s) == toQ t) /\ val (py_secs2beats s now) (toQ b).
+Proof. exact init_default. Qed.
+
 Theorem TInv_preserved_by_every_setter : forall (s : clockstate) (o : op), WF s -> 0 < toQ (tempo s) -> op_ok o ->
   exists s', step s o = Some s' /\ WF s' /\ 0 < toQ (tempo s').
 Proof. exact step_wf. Qed.
@@ -230,9 +244,15 @@ Example ex_play_history :
   = Some ((1, 9, 4), (1, 37, 32))%Z.
 Proof. vm_compute. reflexivity. Qed.
 
+(* TempoClock(1, 0, 0) created at logical second 5: "as if it started counting beats 0 at second 0", so it reads 5 *)
+Example ex_ctor_seconds_zero :
+  option_map (fun s => canon (py_beats s (F 5))) (py_init clock_blank (F 5) (I 1) (I 0) (I 0)) = Some (1, 5, 1)%Z.
+Proof. vm_compute. reflexivity. Qed.
+
 Print Assumptions beats_secs_inverse.
 Print Assumptions TInv_all_histories.
 Print Assumptions grid_minimal.
 Print Assumptions meter_change_rebases.
 Print Assumptions play_quant_schedules_on_grid.
 Print Assumptions history_consistent.
+Print Assumptions constructor_reference_point.
